@@ -12,7 +12,62 @@ import (
 	"github.com/inbucket/inbucket/v3/pkg/vrt/vsched"
 )
 
-type Pool = sync.Pool
+// Pool is a deterministic sync.Pool.  Inside an execution Put pushes and Get pops the item put
+// most recently - a choice sync.Pool is always allowed to make, and the one that re-uses most
+// eagerly, so that aliasing through a pooled object shows - and nothing is carried over from one
+// execution to the next (executions must replay exactly).  Outside an execution it is a sync.Pool.
+type Pool struct {
+	New func() any
+
+	real  sync.Pool
+	mu    sync.Mutex
+	epoch *vsched.Exec
+	items []any
+}
+
+func (p *Pool) Get() any {
+	e := vsched.Cur()
+	if e == nil {
+		if x := p.real.Get(); x != nil {
+			return x
+		}
+		if p.New != nil {
+			return p.New()
+		}
+		return nil
+	}
+	p.mu.Lock()
+	if p.epoch != e {
+		p.epoch, p.items = e, nil
+	}
+	var x any
+	if n := len(p.items); n > 0 {
+		x, p.items = p.items[n-1], p.items[:n-1]
+	}
+	p.mu.Unlock()
+	if x == nil && p.New != nil {
+		x = p.New()
+	}
+	return x
+}
+
+func (p *Pool) Put(x any) {
+	if x == nil {
+		return
+	}
+	e := vsched.Cur()
+	if e == nil {
+		p.real.Put(x)
+		return
+	}
+	p.mu.Lock()
+	if p.epoch != e {
+		p.epoch, p.items = e, nil
+	}
+	p.items = append(p.items, x)
+	p.mu.Unlock()
+}
+
 type Once = sync.Once
 type Locker = sync.Locker
 type Map = sync.Map
